@@ -350,13 +350,13 @@ Definition chk_layout (files : list ast) (probes : list probe) : list N :=
 (* ---- C12 ---- *)
 Require Import Includes spec.Spec_C12.
 Definition wres_code (r : wres) : N :=
-  match r with WOk _ => 1 | WMissing => 2 | WCycle => 3 | WParse => 4 | WFuel => 5 end.
+  match r with WOk _ _ => 1 | WMissing => 2 | WCycle => 3 | WParse => 4 | WFuel => 5 end.
 (* [model verdict = impl; model loaded set = impl; Spec verdict = impl; reachable = impl's
     loaded set; model outcome code] *)
 Definition chk_c12 (w : world) (impl_ok : bool) (impl_loaded : list path) : list N :=
   let m := walk_main w in
-  [b2n (Bool.eqb (match m with WOk _ => true | _ => false end) impl_ok);
-   b2n (match m with WOk l => if impl_ok then same_set l impl_loaded else true | _ => true end);
+  [b2n (Bool.eqb (match m with WOk _ _ => true | _ => false end) impl_ok);
+   b2n (match m with WOk l _ => if impl_ok then same_set l impl_loaded else true | _ => true end);
    b2n (Bool.eqb (spec_accepts w) impl_ok);
    b2n (if impl_ok then same_set (reachable w) impl_loaded else true);
    wres_code m].
